@@ -133,6 +133,7 @@ type State struct {
 	decls   *plist
 	pc      *plist
 	arrays  map[string]Term // current version per family
+	snaps   map[string]map[string]Term // named heap snapshots (site ... snapshot <name>)
 	entry   map[string]Term // entry version per family (for old())
 	epoch   int
 	closures map[string]*Closure
@@ -215,6 +216,10 @@ func (s *State) Clone() *State {
 		c.permits[k] = v
 	}
 	c.heldLocks = append([]string(nil), s.heldLocks...)
+	c.snaps = make(map[string]map[string]Term, len(s.snaps))
+	for k, v := range s.snaps {
+		c.snaps[k] = v
+	}
 	c.ctxDoneChans = s.ctxDoneChans
 	c.aliases = make(map[string]string, len(s.aliases))
 	for k, v := range s.aliases {
